@@ -253,6 +253,32 @@ func execEvent(op string, args []string) string {
 		if _, err := v.NewEventFromTrustedJSONWithEventID(p.EventID(), p.JSON(), p.Redacted()); err != nil {
 			return "bad:own-JSON-no-longer-parses"
 		}
+		// ... and the operations that DERIVE an event (SetUnsigned, SetUnsignedField, Sign, Redact) leave their source alone -
+		// also the event whose JSON() a trusted re-parse was given (the constructors keep the caller's slice): an event with
+		// a roomy `unsigned`, re-read from its own JSON(), edited field by field with shorter / equally long / longer values
+		if base, e2 := p.SetUnsigned(map[string]interface{}{"age": 1234567, "note": "0123456789", "prev_content": map[string]interface{}{"body": "old body"}}); e2 == nil && base != nil {
+			snap := append([]byte{}, base.JSON()...)
+			if cp, e3 := v.NewEventFromTrustedJSONWithEventID(base.EventID(), base.JSON(), false); e3 == nil {
+				for _, kv := range []struct {
+					k string
+					v interface{}
+				}{{"age", 1}, {"note", "abcdefghij"}, {"note", "x"}, {"age", 99999999999}, {"prev_content", map[string]interface{}{}}, {"fresh", true}} {
+					_ = cp.SetUnsignedField(kv.k, kv.v) // edits the copy in place; the source must not notice
+					_ = cp.JSON()
+				}
+				if d, e4 := cp.SetUnsigned(map[string]interface{}{"a": 1}); e4 == nil && d != nil {
+					_ = d.JSON()
+				}
+				Guard(func() string { _ = cp.Sign(signers[0].name, signers[0].kid, signers[0].sk); return "" })
+				if !bytes.Equal(snap, base.JSON()) {
+					return "bad:JSON()-of-the-source-changed-by-edits-of-its-reparsed-copy"
+				}
+				Guard(func() string { cp.Redact(); return "" })
+				if !bytes.Equal(snap, base.JSON()) {
+					return "bad:JSON()-of-the-source-changed-by-Redact-of-its-reparsed-copy"
+				}
+			}
+		}
 		return "ok"
 	case "parse_trusted":
 		v, err := verOf(args[0])
